@@ -314,11 +314,9 @@ func checkLiteral(f *form, s, t string) *failure {
 	if !sameToks(got, toks) {
 		site = "scanner"
 	}
-	obs := "wrong-output"
-	if failed {
-		obs = "error"
-	}
-	return &failure{site + ":" + obs, fmt.Sprintf("template %q (form %s, s=%q t=%q) evaluates to %q (error: %v), expected %q; the scanner cuts it into %s", tpl, f.name, s, t, out, failed, want, describeToks(got))}
+	// the class is the site only: whether the wrong result is a wrong text or an evaluation error depends
+	// on what the mis-cut pieces happen to contain
+	return &failure{site, fmt.Sprintf("template %q (form %s, s=%q t=%q) evaluates to %q (error: %v), expected %q; the scanner cuts it into %s", tpl, f.name, s, t, out, failed, want, describeToks(got))}
 }
 
 func describeToks(ts []scanTok) string {
